@@ -37,6 +37,7 @@ type program struct {
 	MaxStates int            `json:"maxstates"` // safety bound; exceeding it is reported, not hidden
 	ReqSets   [][]string     `json:"reqsets"`   // request lists to explore
 	FailSets  [][]string     `json:"failsets"`  // sets of tasks whose first command exits non-zero
+	ErrSets   [][]string     `json:"errsets"`   // sets of tasks whose first command cannot be run at all: the RUNNER returns an error (the real one does for a shell syntax error)
 }
 
 const absent = 9
@@ -267,6 +268,7 @@ type edge struct {
 
 type recRunner struct {
 	failing map[string]bool
+	erring  map[string]bool // the runner itself fails on this task's first command (no exit status)
 	log     []struct {
 		task, cmd string
 		status    int
@@ -281,6 +283,13 @@ func (r *recRunner) Run(cmd string, _ iostream.IOStream, task string, _ []string
 		panic(killSentinel{at: fmt.Sprintf("inside command %d (%s)", r.crashCmd, cmd)})
 	}
 	st := 0
+	if r.erring[task] && strings.HasSuffix(cmd, "1") {
+		r.log = append(r.log, struct {
+			task, cmd string
+			status    int
+		}{task, cmd, -1})
+		return shell.Result{}, fmt.Errorf("could not run %q: syntax error", cmd)
+	}
 	if r.failing[task] && strings.HasSuffix(cmd, "1") {
 		st = 1
 	}
@@ -304,9 +313,13 @@ func (sb *sandbox) invoke(req []string, force bool, failing []string, crash cras
 	if e.Failing == nil {
 		e.Failing = []string{}
 	}
-	rr := &recRunner{failing: map[string]bool{}}
+	rr := &recRunner{failing: map[string]bool{}, erring: map[string]bool{}}
 	for _, f := range failing {
-		rr.failing[f] = true
+		if strings.HasPrefix(f, "!") { // "!T": the runner returns an error on T's first command
+			rr.erring[f[1:]] = true
+		} else {
+			rr.failing[f] = true
+		}
 	}
 	if crash.Kind == "cmd" {
 		rr.crashCmd = crash.K
@@ -352,6 +365,8 @@ func (sb *sandbox) invoke(req []string, force bool, failing []string, crash cras
 			e.Outcome, e.Err = "error", err.Error()
 			if strings.Contains(strings.ToLower(err.Error()), "cache") {
 				e.ErrCls = "cache"
+			} else if len(rr.erring) > 0 && strings.Contains(err.Error(), "encountered an error") {
+				e.ErrCls = "runner" // the environment made a command unrunnable: spok has to stop with this error
 			} else {
 				e.ErrCls = "other"
 			}
@@ -566,7 +581,15 @@ func runExplore(args []string) error {
 		// invocations
 		for _, req := range p.ReqSets {
 			for _, force := range []bool{false, true} {
-				for _, failing := range p.FailSets {
+				failopts := append([][]string{}, p.FailSets...)
+				for _, es := range p.ErrSets {
+					var fs []string
+					for _, t := range es {
+						fs = append(fs, "!"+t)
+					}
+					failopts = append(failopts, fs)
+				}
+				for _, failing := range failopts {
 					var nev, ncmd int
 					for rep := 0; rep < p.Reps; rep++ {
 						if err := sb.materialise(s); err != nil {
